@@ -302,4 +302,64 @@ Definition h_snapshot (st : hstate) : N * bool * N * sending_state * bool * bool
    h_sending st, h_closing st, h_halted st,
    match h_timeout st with Some _ => true | None => false end).
 
+(* ---------------------------------------------------------------------------------------------------
+   The environment's side of the contract, as a monitor that runs beside the model.
+     e_ready  : the behaviour's copy of this handler's state allows a SendWantlist: true initially,
+                false from the moment a SendWantlist is issued, true again when the handler reports
+                RpReady, false on every other report (client.rs update_handlers / sending_state_changed);
+     e_open   : an OutboundSubstreamRequest of the client half is unanswered (libp2p-swarm answers each
+                with exactly one FullyNegotiatedOutbound or DialUpgradeError);
+     e_closed : `poll_close` has been called (libp2p-swarm then never calls anything but `poll_close`
+                again: "After reaching this point, `poll` method will never be called again").
+   `strict = true` enforces the third rule as well, `strict = false` only the first two.
+   --------------------------------------------------------------------------------------------------- *)
+Record env := MkEnv { e_ready : bool; e_open : bool; e_closed : bool }.
+
+Definition env_init : env := MkEnv true false false.
+
+Definition env_out (e : env) (o : hout) : env :=
+  match o with
+  | HReport RpReady => MkEnv true (e_open e) (e_closed e)
+  | HReport _ => MkEnv false (e_open e) (e_closed e)
+  | HOpenStream => MkEnv (e_ready e) true (e_closed e)
+  | _ => e
+  end.
+
+Definition env_op (e : env) (op : hop) : env :=
+  match op with
+  | HSendWantlist _ => MkEnv false (e_open e) (e_closed e)
+  | HSetStream | HAllocFailed => MkEnv (e_ready e) false (e_closed e)
+  | HPollClose _ => MkEnv (e_ready e) (e_open e) true
+  | HAdvance _ | HPoll _ => e
+  end.
+
+Definition op_allowed (strict : bool) (e : env) (op : hop) : bool :=
+  match op with
+  | HSendWantlist _ => e_ready e && negb (strict && e_closed e)
+  | HSetStream | HAllocFailed => e_open e && negb (strict && e_closed e)
+  | HPoll _ => negb (strict && e_closed e)
+  | HAdvance _ | HPollClose _ => true
+  end.
+
+Definition env_step (e : env) (op : hop) (o : list hout) : env := fold_left env_out o (env_op e op).
+
+Fixpoint disciplined_from (strict : bool) (st : hstate) (e : env) (ops : list hop) : bool :=
+  match ops with
+  | [] => true
+  | op :: ops' =>
+      op_allowed strict e op &&
+      let '(st', o) := hstep st op in disciplined_from strict st' (env_step e op o) ops'
+  end.
+
+Definition disciplined (strict : bool) (c : conn) (ops : list hop) : bool :=
+  disciplined_from strict (h_init c) env_init ops.
+
+(* wantlists handed over by HSendWantlist ops, in order *)
+Fixpoint sent_ws (ops : list hop) : list wantlist :=
+  match ops with
+  | [] => []
+  | HSendWantlist w :: ops' => w :: sent_ws ops'
+  | _ :: ops' => sent_ws ops'
+  end.
+
 End WithEncode.
